@@ -205,6 +205,13 @@ package ast
 //@   pure allocates
 //@   nilable tasks result
 //@   ensures result.1 ==> result.0 != nil
+// a task is looked up under the name AS IT WAS ASKED FOR: every character of a requested name is literal (":build" is
+// not "build": it is matched by a wildcard or an alias, or it is unknown)
+//@   site (*OrderedMap).Get#0 requires arg1 == key                                                                     [C15,C08]
+//@   nosite strings.TrimLeft                                                                                           [C15,C08]
+//@   nosite strings.TrimPrefix                                                                                         [C15,C08]
+//@   nosite strings.TrimSpace                                                                                          [C15,C08]
+//@   nosite strings.ToLower                                                                                            [C15,C08]
 
 //@ func (*Tasks).Merge$1
 //@   init dupFree := false
